@@ -43,14 +43,14 @@ def main():
         "version": 1,
         "setup_cmd": "./setup.sh",
         "hooks": {"guard": "NXSLIB_VERIF", "enable": "none needed: the harness rebinds module globals of nxslib from its own process; no source hooks in /repo",
-                  "baseline_off_cmd": "cd /repo && /venv/bin/python -m pytest -q -p no:cacheprovider --timeout=900",
+                  "baseline_off_cmd": "cd /repo && /venv/bin/python -m pytest -ra -q -p no:cacheprovider --timeout=900 --continue-on-collection-errors",
                   "source_commits": [], "add_only": True},
         "engines": [{"name": "lean4-proof+correspondence", "path": "lean/ + harness/",
                      "serves_properties": [c["property_id"] for c in checks],
                      "kind_free_text": "Lean 4 model + theorems (kernel-checked), model constants regenerated from /repo by harness/translate.py on every run, differential correspondence of the model driver against the real code, failing-input search with independent oracles"}],
         "checks": checks,
         "not_applicable": na,
-        "notes": "See DESIGN.md. Genuine defects repaired by `fix:` commits in /repo are listed in known_findings.json (fixed entries suppress nothing).",
+        "notes": "See DESIGN.md (section 9a: as built; section 10: seeded breaking changes and what each check reports). 16 genuine defects were repaired by `fix:` commits in /repo and are listed as fixed in known_findings.json (fixed entries suppress nothing; their inputs are the regression corpus harness/corpus/); one known finding: C14 batch-too-large (F17). No hooks in /repo: instrumentation is done by rebinding module globals from the harness process (harness/vsim.py, harness/sched.py). Cross-property composition theorems: lean/NxsModel/Props/E2E.lean (audited by harness/audit_all.py). Translator self-tests: harness/test_translate*.py.",
     }
     with open(os.path.join(ROOT, "MANIFEST.json"), "w") as f:
         json.dump(man, f, indent=1)
